@@ -626,6 +626,10 @@ error:
 	} else if (error == TR_INTR) {
 		RTR_DBG1("receive call interrupted");
 		return TR_INTR;
+	} else if (error == TR_CLOSED) {
+		// the caller decides what a closed connection means in its state
+		RTR_DBG1("connection closed by the cache");
+		return TR_CLOSED;
 	} else if (error == CORRUPT_DATA) {
 		RTR_DBG1("corrupt PDU received");
 		const char txt[] = "corrupt data received, length value in PDU is too small";
@@ -1071,7 +1075,7 @@ static int rtr_sync_receive_and_store_pdus(struct rtr_socket *rtr_socket)
 		pthread_setcancelstate(PTHREAD_CANCEL_DISABLE, &oldcancelstate);
 		pthread_cleanup_pop(0);
 
-		if (retval == TR_WOULDBLOCK) {
+		if (retval == TR_WOULDBLOCK || retval == TR_CLOSED) {
 			rtr_change_socket_state(rtr_socket, RTR_ERROR_TRANSPORT);
 			retval = RTR_ERROR;
 			goto cleanup;
@@ -1348,7 +1352,7 @@ int rtr_sync(struct rtr_socket *rtr_socket)
 			}
 		}
 
-		if (rtval == TR_WOULDBLOCK) {
+		if (rtval == TR_WOULDBLOCK || rtval == TR_CLOSED) {
 			rtr_change_socket_state(rtr_socket, RTR_ERROR_TRANSPORT);
 			return RTR_ERROR;
 		} else if (rtval < 0) {
@@ -1419,6 +1423,8 @@ int rtr_wait_for_sync(struct rtr_socket *rtr_socket)
 	} else if (rtval == TR_WOULDBLOCK) {
 		RTR_DBG1("Refresh interval expired");
 		return RTR_SUCCESS;
+	} else if (rtval == TR_CLOSED) {
+		rtr_change_socket_state(rtr_socket, RTR_ERROR_TRANSPORT);
 	}
 	return RTR_ERROR;
 }
